@@ -35,6 +35,19 @@ VARIANTS = [
     V("C01", "double-div-constant-inf", CT, ("            if self == 0.0 or self != self:\n                return DoubleType(\"nan\")\n            return DoubleType(copysign(float(\"inf\"), copysign(1.0, self) * copysign(1.0, other)))", "            return DoubleType(\"inf\")"), "DoubleType.__truediv__"),
     V("C01", "neg-bounds-hex", CT, ("if -(2**63) <= result_value < 2**63:", "if -0x8000000000000000 <= result_value < 0x8000000000000000:"), None),
     V("C01", "neg-locals-renamed", CT, [("        self_sign = -1 if self < IntType(0) else +1\n        go_mod = self_sign * (abs(self) % abs(cast(IntType, other)))", "        sgn = -1 if self < IntType(0) else +1\n        go_mod = sgn * (abs(self) % abs(cast(IntType, other)))")], None),
+    # ---- C02 ------------------------------------------------------------------------------
+    V("C02", "and-swapped-returns", CT, ("        if y:\n            return x  # whatever && true == whatever\n        else:\n            return y  # whatever && false == false", "        if y:\n            return y  # whatever && true == whatever\n        else:\n            return x  # whatever && false == false"), "logical_and("),
+    V("C02", "or-isinstance-flipped", CT, ("    elif isinstance(x, BoolType) and not isinstance(y, BoolType):\n        if x:\n            return x  # true || whatever == true", "    elif isinstance(x, BoolType) and isinstance(y, BoolType):\n        if x:\n            return x  # true || whatever == true"), "logical_or"),
+    V("C02", "not-error-to-false", CT, ("    if isinstance(x, Exception):\n        return x\n    if isinstance(x, BoolType):", "    if isinstance(x, Exception):\n        return BoolType(False)\n    if isinstance(x, BoolType):"), "logical_not(E)"),
+    V("C02", "condition-swapped", CT, ("    result_value = x if e else y", "    result_value = y if e else x"), "logical_condition"),
+    V("C02", "conditionaland-no-typeerror", EV, ("                return func(left, right)\n            except TypeError as ex:\n                self.logger.debug(\"%s(%s, %s) --> %s\", func.__name__, left, right, ex)\n                err = (\n                    f\"found no matching overload for _&&_ \"", "                return func(left, right)\n            except KeyError as ex:\n                self.logger.debug(\"%s(%s, %s) --> %s\", func.__name__, left, right, ex)\n                err = (\n                    f\"found no matching overload for _&&_ \""), "Evaluator.conditionaland|TypeError"),
+    V("C02", "expr-visits-both", EV, ("                if cond_value:\n                    left = self.visit(cast(lark.Tree, tree.children[1]))\n                else:\n                    right = self.visit(cast(lark.Tree, tree.children[2]))", "                left = self.visit(cast(lark.Tree, tree.children[1]))\n                right = self.visit(cast(lark.Tree, tree.children[2]))"), "Evaluator.expr|lazy"),
+    V("C02", "interp-all-unwrapped", EV, ("                and_oper = cast(\n                    CELBoolFunction,\n                    eval_error(\"no such overload\", TypeError)(\n                        celpy.celtypes.logical_and\n                    ),\n                )", "                and_oper = cast(\n                    CELBoolFunction,\n                    celpy.celtypes.logical_and,\n                )"), "member_dot_arg[all]|reducer"),
+    V("C02", "ss-macro-no-catch", EV, ("            try:\n                return nested_eval.evaluate({identifier: v})\n            except CELEvalError as ex:\n                return ex", "            return nested_eval.evaluate({identifier: v})"), "C02.T5"),
+    V("C02", "exists-neutral-true", EV, ("                    or_oper, map(sub_expr, member_list), celpy.celtypes.BoolType(False)", "                    or_oper, map(sub_expr, member_list), celpy.celtypes.BoolType(True)"), "member_dot_arg[exists]|neutral"),
+    V("C02", "compiled-ternary-unwrapped", EV, ("${func_name}(celpy.evaluation.result(activation, ex_${n}_c), celpy.evaluation.result(activation, ex_${n}_l), celpy.evaluation.result(activation, ex_${n}_r))", "${func_name}(celpy.evaluation.result(activation, ex_${n}_c), celpy.evaluation.result(activation, ex_${n}_l), ex_${n}_r(activation))"), "Phase1Transpiler.expr"),
+    V("C02", "neg-and-nested-if", CT, ("    else:\n        return BoolType(cast(BoolType, x) and cast(BoolType, y))", "    else:\n        if x:\n            return BoolType(bool(y))\n        return BoolType(False)"), None),
+    V("C02", "neg-params-renamed", CT, ("def logical_not(x: Value) -> Value:", "def logical_not(x: Value, *, _unused: int = 0) -> Value:"), None),
     # ---- C04 ------------------------------------------------------------------------------
     V("C04", "member-index-no-keyerror", EV, ("        except KeyError as ex:\n            self.logger.debug(\"%s(%s, %s) --> %s\", func.__name__, member, index, ex)\n            value = CELEvalError(\"no such key\", ex.__class__, ex.args, tree=tree)\n            value.__cause__ = ex\n            return value\n", ""), "Evaluator.member_index|KeyError"),
     V("C04", "method-eval-no-attributeerror", EV, ("        except (TypeError, AttributeError) as ex:\n            self.logger.debug(\n                \"method_eval(%r, %r, %s) --> %r\", object, method_ident, exprlist, ex\n            )", "        except TypeError as ex:\n            self.logger.debug(\n                \"method_eval(%r, %r, %s) --> %r\", object, method_ident, exprlist, ex\n            )"), "Evaluator.method_eval|AttributeError"),
